@@ -1,0 +1,9 @@
+//go:build !verif
+
+// Package simhook provides cooperative yield points for the deterministic
+// simulation harness. In normal builds every function is an empty, inlinable
+// no-op; with the verif build tag the harness can install a scheduler hook.
+package simhook
+
+// Yield marks a point where the simulation scheduler may switch tasks.
+func Yield(site string) {}
